@@ -1491,14 +1491,22 @@ func (e *Engine) doCall(c *config, call ssa.CallInstruction) []*config {
 			// decided before the call, so that what the callee does under it stays correlated with
 			// what the caller does under it afterwards
 			entries := []*config{cur}
-			if e.R.Flag != nil {
+			if e.R.Flag != nil || e.R.Track != nil {
 				for i := range f.Params {
 					args := call.Common().Args
-					if i >= len(args) || args[i].Type().String() != "bool" {
+					if i >= len(args) {
 						continue
 					}
-					if _, ok := e.R.Flag(args[i]); !ok {
-						continue
+					// a value the rule asked to track (its nil-ness matters) is decided before the call in the same
+					// way, so that "the helper returned nil" stays correlated with "the value was not nil"
+					tracked := e.R.Track != nil && e.R.Track(args[i])
+					if !tracked {
+						if args[i].Type().String() != "bool" {
+							continue
+						}
+						if _, ok := e.R.Flag(args[i]); !ok {
+							continue
+						}
 					}
 					var next []*config
 					for _, c0 := range entries {
